@@ -249,19 +249,19 @@ def eval_case(h, stream, case_ops, work, tag="shrink"):
     return issues, open(tr_p).read().splitlines(), open(md_p).read().splitlines()
 
 
-def shrink(h, stream, case_ops, work, want_spec):
+def shrink(h, stream, case_ops, work, want_spec, is_spec=lambda k: "spec" in k):
     """Delta-debug the op list (the reset line is kept) while the failure persists."""
     def fails(ops):
         issues, _, _ = eval_case(h, stream, ops, work)
         if want_spec:
-            return any("spec" in k for (_, k, *_r) in issues)
-        return bool(issues)
+            return any(is_spec(k) for (_, k, *_r) in issues)
+        return any(k != "spec" or is_spec(k) for (_, k, *_r) in issues)
     head, body = case_ops[:1], case_ops[1:]
     if not fails(head + body):
         return case_ops
     # truncate after the first failing line
     issues, _, _ = eval_case(h, stream, head + body, work)
-    first = min(i for (i, k, *_r) in issues if (not want_spec or "spec" in k))
+    first = min(i for (i, k, *_r) in issues if (is_spec(k) if want_spec else (k != "spec" or is_spec(k))))
     body = body[: max(0, first - 1)]
     if not fails(head + body):
         body = case_ops[1:]
@@ -531,11 +531,16 @@ def report_violation(pid, P, tier, seed, t0, work, h, broken, new_issues, stats_
     found = False
     if new_issues and h:
         # prefer a case where the implementation contradicts the specification (a real failing input)
-        spec_cases = [(s, o, i) for (s, o, i) in new_issues if any("spec" in x[1] for x in i)]
+        # with an open known finding, a spec-bad line on which implementation = model is explained by that finding
+        # (the model carries it): it must not steer the search away from the new deviation
+        has_open = any(k.get("status") == "known" and pid in k.get("properties", [k.get("property")])
+                       for k in load_json(os.path.join(VERIF, "known_findings.json"), {"findings": []})["findings"])
+        is_spec = (lambda k: "spec" in k and k != "spec") if has_open else (lambda k: "spec" in k)
+        spec_cases = [(s, o, i) for (s, o, i) in new_issues if any(is_spec(x[1]) for x in i)]
         pick = min(spec_cases or new_issues, key=lambda t: len(t[1]))
         stream, ops, its = pick
         want_spec = bool(spec_cases)
-        small = shrink(h, stream, ops, work, want_spec)
+        small = shrink(h, stream, ops, work, want_spec, is_spec)
         issues, tr, md = eval_case(h, stream, small, work, "final")
         if not issues:
             small = ops
@@ -547,6 +552,8 @@ def report_violation(pid, P, tier, seed, t0, work, h, broken, new_issues, stats_
             tr = ["%s\t%s" % (x[2], x[3]) for x in issues]
             md = ["%s\t%s" % (x[4], x[5]) for x in issues]
             rp["recorded_not_reexecuted"] = True
+        if has_open:
+            issues = [x for x in issues if x[1] != "spec"] or issues
         rp.update({"stream": stream, "ops": small, "impl_trace": tr, "model_trace": md,
                    "first_divergence": ({"line": issues[0][0], "kind": issues[0][1], "op": issues[0][2], "impl": issues[0][3], "model": issues[0][4], "spec_verdict": issues[0][5]} if issues else None),
                    "kind": "property-fails-on-implementation" if want_spec else "correspondence-broken",
